@@ -393,16 +393,128 @@ func (c *scopeCase) occContext(o luaref.Occ) string {
 	return best
 }
 
-// lineAt returns "<trimmed source line>@<column within the trimmed line>" for a range of a file: the
-// local, surroundings-independent description of an occurrence used in failure cores.
+// lineAt returns "<statement segment>@<column within the segment>" for a range of a file: the innermost
+// simple statement, or the head / closing part of the innermost compound statement, that contains the range.
+// It is the local, layout- and surroundings-independent description of an occurrence used in failure cores.
 func lineAt(text string, r drv.Range) string {
-	ls := strings.Split(text, "\n")
-	if r.Start.Line >= len(ls) {
-		return "?"
+	p := luaref.Parse(text)
+	so, _, ok := textref.Offset(text, textref.Pos{Line: r.Start.Line, Char: r.Start.Character})
+	if p.Err != nil || !ok {
+		ls := strings.Split(text, "\n")
+		if r.Start.Line >= len(ls) {
+			return "?"
+		}
+		l := ls[r.Start.Line]
+		c := r.Start.Character
+		if c > len(l) {
+			c = len(l)
+		}
+		return strings.Join(strings.Fields(l[:c]+"^"+l[c:]), " ")
 	}
-	l := ls[r.Start.Line]
-	t := strings.TrimLeft(l, " ")
-	return fmt.Sprintf("%s@%d", t, r.Start.Character-(len(l)-len(t)))
+	segS, segE := 0, len(text)
+	var walk func(b *luaref.Block)
+	bodies := func(st luaref.Stat) []*luaref.Block {
+		switch s := st.(type) {
+		case *luaref.DoStat:
+			return []*luaref.Block{s.Body}
+		case *luaref.WhileStat:
+			return []*luaref.Block{s.Body}
+		case *luaref.RepeatStat:
+			return []*luaref.Block{s.Body}
+		case *luaref.IfStat:
+			bs := append([]*luaref.Block{}, s.Blocks...)
+			if s.Else != nil {
+				bs = append(bs, s.Else)
+			}
+			return bs
+		case *luaref.NumForStat:
+			return []*luaref.Block{s.Body}
+		case *luaref.GenForStat:
+			return []*luaref.Block{s.Body}
+		case *luaref.FuncStat:
+			return []*luaref.Block{s.Func.Body}
+		case *luaref.LocalFuncStat:
+			return []*luaref.Block{s.Func.Body}
+		case *luaref.LocalStat:
+			var bs []*luaref.Block
+			for _, e := range s.Exprs {
+				if f, ok := e.(*luaref.FuncExpr); ok && len(f.Body.Stats) > 0 {
+					bs = append(bs, f.Body)
+				}
+			}
+			return bs
+		}
+		return nil
+	}
+	walk = func(b *luaref.Block) {
+		for _, st := range b.Stats {
+			sp := statSpan(st)
+			if so < sp.Start || so >= sp.End {
+				continue
+			}
+			segS, segE = sp.Start, sp.End
+			// cut the segment at the bodies: keep the part (head, middle or closing) that holds the offset
+			for _, body := range bodies(st) {
+				if len(body.Stats) == 0 {
+					continue
+				}
+				if so >= body.Start && so < body.End {
+					walk(body)
+					return
+				}
+				if body.End <= so && body.End > segS {
+					segS = body.End
+				}
+				if body.Start > so && body.Start < segE {
+					segE = body.Start
+				}
+			}
+			return
+		}
+	}
+	walk(p.Chunk)
+	if so > segE {
+		segE = so
+	}
+	return strings.Join(strings.Fields(text[segS:so]+"^"+text[so:segE]), " ")
+}
+
+func statSpan(st luaref.Stat) luaref.Span {
+	switch s := st.(type) {
+	case *luaref.LocalStat:
+		return s.Span
+	case *luaref.AssignStat:
+		return s.Span
+	case *luaref.CallStat:
+		return s.Span
+	case *luaref.DoStat:
+		return s.Span
+	case *luaref.WhileStat:
+		return s.Span
+	case *luaref.RepeatStat:
+		return s.Span
+	case *luaref.IfStat:
+		return s.Span
+	case *luaref.NumForStat:
+		return s.Span
+	case *luaref.GenForStat:
+		return s.Span
+	case *luaref.FuncStat:
+		return s.Span
+	case *luaref.LocalFuncStat:
+		return s.Span
+	case *luaref.ReturnStat:
+		return s.Span
+	case *luaref.BreakStat:
+		return s.Span
+	case *luaref.GotoStat:
+		return s.Span
+	case *luaref.LabelStat:
+		return s.Span
+	case *luaref.EmptyStat:
+		return s.Span
+	}
+	return luaref.Span{}
 }
 
 func (c *scopeCase) frLines(xs []fileRange) string {
